@@ -339,6 +339,13 @@ def run(tier, seed):
     named = [l for l in lists if any(s_ in FN_SYMS for s_ in l)]
     cases += build_cases(named, "r", [(False, False, "fn")], fn_name="r#" + FN)
     rep.extra["lists_with_raw_fn_name"] = len(named)
+    # the function itself named like a name the macro would generate (`arg0`, `arg1`, `_arg1`), for the short lists that contain a
+    # pattern without a name of its own
+    UNNAMED = {"_", "(a,b)", "N2(a,_)", "N2(a,λ)", "[a,b]"}
+    gen_named = [l for l in lists if 1 <= len(l) <= 2 and any(s_ in UNNAMED for s_ in l)]
+    for gname in ("arg0", "arg1", "_arg1"):
+        cases += build_cases(gen_named, "g" + gname.replace("_", "u"), [(False, False, "fn")], fn_name=gname)
+    rep.extra["lists_with_fn_named_like_a_generated_name"] = 3 * len(gen_named)
     # fns stamped out by macro_rules!: parameter names of one signature live in different hygiene contexts (same spelling,
     # distinct bindings): "forwards them positionally" has to hold for those as well
     from ..gen.fncases import macro_case
